@@ -654,6 +654,10 @@ class TermInterp:
             src = norm_src(e)
             # clip mask of the raw predictions: 1 strictly inside the clip interval
             if isinstance(e.ops[0], (ast.Gt, ast.Lt, ast.GtE, ast.LtE)) and "epsilon" in norm_src(e.comparators[0]):
+                if getattr(self, "symbolic_clip", False) and a.ndim == 2:
+                    # the clip mask as a 0/1 tensor: entries at the epsilon bounds are constants of the score
+                    nm = "mlo" if isinstance(e.ops[0], (ast.Gt, ast.GtE)) else "mhi"
+                    return TArr(a.shape, Poly.atom(mk_var(nm, [ph(d, q) for q, d in enumerate(a.shape) if d != 1])), mask=True)
                 self.notes.append(f"`{src}` is taken to hold (interior point)")
                 return TArr(a.shape, Poly.const(1), mask=True)
             if self.mode == "model" and isinstance(e.ops[0], (ast.Gt, ast.GtE)) and isinstance(b, int) and b == 0:
